@@ -81,9 +81,16 @@ void view_battery(Ctx &c, const std::string &A, const std::string &B) {
 			VCHECK(c, "C15", got == exp, "%s.find_first(%d, %zu) is %zd, reference %zd", show(A).c_str(), ch, start, (ssize_t)got, (ssize_t)exp);
 		}
 		VCHECK(c, "C15", va.find_first(ch) == ra.find(ch), "%s.find_first(%d) differs", show(A).c_str(), ch);
+		// start positions far beyond the end (a previous "not found" result passed back in, and values at which pointer arithmetic wraps)
+		for(size_t start : {size_t(-1), size_t(-2), size_t(-3), size_t(-1) / 2, size_t(-1) / 2 + 1, size_t(-1) / 4 + 1, A.size() + 2, (size_t(1) << 32) + 1}) {
+			size_t got = va.find_first(ch, start);
+			VCHECK(c, "C15", got == size_t(-1), "%s.find_first(%d, %zu) is %zd although the start position lies beyond the end", show(A).c_str(), ch, start, (ssize_t)got);
+		}
 		size_t got = va.find_last(ch), exp = ra.rfind(ch);
 		VCHECK(c, "C15", got == exp, "%s.find_last(%d) is %zd, reference %zd", show(A).c_str(), ch, (ssize_t)got, (ssize_t)exp);
 	}
+	for(size_t start : {size_t(-1), size_t(-2), size_t(-1) / 2 + 1, A.size() + 2})
+		VCHECK(c, "C15", va.find_first_of(vb, start) == size_t(-1), "%s.find_first_of(%s, %zu) finds something beyond the end", show(A).c_str(), show(B).c_str(), start);
 	for(size_t start = 0; start <= A.size() + 1; start++) {
 		size_t got = va.find_first_of(vb, start), exp = ra.find_first_of(rb, start);
 		VCHECK(c, "C15", got == exp, "%s.find_first_of(%s, %zu) is %zd, reference %zd", show(A).c_str(), show(B).c_str(), start, (ssize_t)got, (ssize_t)exp);
@@ -206,6 +213,9 @@ void string_battery(Ctx &c, const std::string &A, const std::string &B) {
 	VCHECK(c, "C15", hs == hv, "hash of owned %s (%u) differs from the hash of an equal view (%u)", show(A).c_str(), hs, hv);
 	if(A == B) VCHECK(c, "C15", hs == frg::hash<Str>{}(*sb), "equal strings hash differently");
 	{ Str *fill = c.make<Str>(A.size(), 'k', track_alloc{}); check_owned(c, *fill, std::string(A.size(), 'k'), "string(n, c)"); c.destroy(fill); }
+	{ View nullv; Str *sn = c.make<Str>(nullv, track_alloc{}); check_owned(c, *sn, "", "string(null view)"); *sn += vb; check_owned(c, *sn, B, "string(null view) += view"); c.destroy(sn);
+	  Str *sn2 = c.make<Str>(track_alloc{}, nullv); check_owned(c, *sn2, "", "string(alloc, null view)"); sn2->resize(2); c.destroy(sn2);
+	  Str *sn3 = c.make<Str>((const char *)nullptr, (size_t)0, track_alloc{}); check_owned(c, *sn3, "", "string(nullptr, 0)"); c.destroy(sn3); }
 	{ Str *def = c.make<Str>(track_alloc{}); check_owned(c, *def, "", "string()"); Str *cp = c.make<Str>(*def); check_owned(c, *cp, "", "copy of string()"); *def += vb; check_owned(c, *def, B, "string() += view"); c.destroy(cp); c.destroy(def); }
 	c.check_san("C15");
 	VTRACK_POLL(c);
@@ -290,6 +300,8 @@ void wide_battery(Ctx &c, const std::string &A8, const std::string &B8, const ch
 		for(size_t start = 0; start <= A.size() + 1; start++) { size_t got = va.find_first(ch, start), exp = ra.find(ch, start); VCHECK(c, "C15", got == exp, "<%s> find_first(%#x, %zu) is %zd, reference %zd", tname, (unsigned)ch, start, (ssize_t)got, (ssize_t)exp); }
 		size_t got = va.find_last(ch), exp = ra.rfind(ch);
 		VCHECK(c, "C15", got == exp, "<%s> find_last(%#x) is %zd, reference %zd", tname, (unsigned)ch, (ssize_t)got, (ssize_t)exp);
+		for(size_t start : {size_t(-1), size_t(-1) / sizeof(Char) + 1, size_t(-1) / sizeof(Char), size_t(-1) / 2 + 1, A.size() + 2})
+			VCHECK(c, "C15", va.find_first(ch, start) == size_t(-1), "<%s> find_first(%#x, %zu) finds something although the start position lies beyond the end", tname, (unsigned)ch, start);
 	}
 	for(size_t start = 0; start <= A.size() + 1; start++) {
 		size_t got = va.find_first_of(vb, start), exp = ra.find_first_of(rb, start);
